@@ -1,0 +1,19 @@
+//go:build verif
+
+package core
+
+import "time"
+
+// This file is a test seam for the external verification harness (/verif).
+// It is compiled only with `-tags verif` and adds no behaviour to normal builds.
+
+// VerifSetPersistInterval sets the period of the flush timer used by Run and
+// returns the previous value. It must be called before any Blockchain of the
+// process is running. The crash-point enumeration of the harness needs the
+// sequence of database batches to be a function of its own flush requests
+// (VerifPersist / VerifPersistGC), so it moves the timer out of the way.
+func VerifSetPersistInterval(d time.Duration) time.Duration {
+	old := persistInterval
+	persistInterval = d
+	return old
+}
